@@ -8,6 +8,7 @@ import (
 	"go/types"
 	"sort"
 	"strings"
+	"sync"
 
 	"golang.org/x/tools/go/packages"
 )
@@ -50,6 +51,22 @@ type Prog struct {
 	MapTypes   []*types.Map
 	structSeen map[string]bool
 	Renames    map[string]map[string]string // function key -> name recorded in names.lock -> current name
+	callMu     sync.Mutex
+	InlinedAt  map[string]int // contract-less callee -> number of call sites where its body was executed in place
+	HavocAt    map[string]int // contract-less callee -> number of call sites that fell back to the havoc model
+}
+
+func (p *Prog) noteCall(key string, inlined bool) {
+	p.callMu.Lock()
+	defer p.callMu.Unlock()
+	if p.InlinedAt == nil {
+		p.InlinedAt, p.HavocAt = map[string]int{}, map[string]int{}
+	}
+	if inlined {
+		p.InlinedAt[key]++
+	} else {
+		p.HavocAt[key]++
+	}
 }
 
 func pkgShort(p *types.Package) string {
@@ -341,6 +358,8 @@ type FuncGen struct {
 	noFacts     int                 // >0: terms mention bound variables, no typing facts may be emitted
 	axiomHeap   map[string]string   // non-nil while an axiom is evaluated: heap key -> array sort (arrays are bound variables)
 	inlineOrd   int
+	lemmaPkg    string      // non-empty: this generator proves the lemmas of that package
+	lemmaIdx    int         // index (in the package's axiom list) of the lemma being proved
 	inlineStack []*FuncInfo // contract-less callees being executed in place
 }
 
